@@ -1,0 +1,86 @@
+//! Simulation hooks for the external verification harness.
+//!
+//! Compiled only with the cargo feature `verif-hooks` (off by default). The
+//! hooks give a deterministic simulator three seams the runtime does not
+//! otherwise have: a step-fuel budget (so a runaway story ends a simulated
+//! case instead of hanging it), a story-seed override (so two instances can
+//! share a seed) and reach probes (counters that only measure which internal
+//! paths a workload exercised). All state is thread-local.
+use std::cell::{Cell, RefCell};
+
+use crate::story_error::StoryError;
+
+/// Marker embedded in the error raised when the fuel budget is exhausted.
+pub const FUEL_MARKER: &str = "VERIF-FUEL";
+
+thread_local! {
+    static FUEL: Cell<Option<u64>> = const { Cell::new(None) };
+    static FUEL_EXHAUSTED: Cell<bool> = const { Cell::new(false) };
+    static STEPS: Cell<u64> = const { Cell::new(0) };
+    static SEED: Cell<Option<i32>> = const { Cell::new(None) };
+    static PROBES: RefCell<Vec<(&'static str, u64)>> = const { RefCell::new(Vec::new()) };
+}
+
+/// Install (or remove, with `None`) the step budget of the current thread and
+/// clear the exhausted flag.
+pub fn set_fuel(fuel: Option<u64>) {
+    FUEL.with(|f| f.set(fuel));
+    FUEL_EXHAUSTED.with(|f| f.set(false));
+}
+
+/// `true` once a step was refused because the budget ran out.
+pub fn fuel_exhausted() -> bool {
+    FUEL_EXHAUSTED.with(|f| f.get())
+}
+
+/// Number of interpreter steps taken on this thread since the last
+/// [`reset_steps`].
+pub fn steps() -> u64 {
+    STEPS.with(|s| s.get())
+}
+
+pub fn reset_steps() {
+    STEPS.with(|s| s.set(0));
+}
+
+pub(crate) fn burn_fuel() -> Result<(), StoryError> {
+    STEPS.with(|s| s.set(s.get().wrapping_add(1)));
+    FUEL.with(|f| match f.get() {
+        None => Ok(()),
+        Some(0) => {
+            FUEL_EXHAUSTED.with(|e| e.set(true));
+            Err(StoryError::InvalidStoryState(format!(
+                "{FUEL_MARKER}: step budget exhausted"
+            )))
+        }
+        Some(n) => {
+            f.set(Some(n - 1));
+            Ok(())
+        }
+    })
+}
+
+/// Force the story seed of every `StoryState` created on this thread.
+pub fn set_story_seed(seed: Option<i32>) {
+    SEED.with(|s| s.set(seed));
+}
+
+pub(crate) fn story_seed_override(drawn: i32) -> i32 {
+    SEED.with(|s| s.get()).unwrap_or(drawn)
+}
+
+pub(crate) fn probe(name: &'static str) {
+    PROBES.with(|p| {
+        let mut p = p.borrow_mut();
+        if let Some(e) = p.iter_mut().find(|e| e.0 == name) {
+            e.1 += 1;
+        } else {
+            p.push((name, 1));
+        }
+    });
+}
+
+/// Return and clear the probe counters of the current thread.
+pub fn take_probes() -> Vec<(&'static str, u64)> {
+    PROBES.with(|p| std::mem::take(&mut *p.borrow_mut()))
+}
